@@ -4,7 +4,6 @@
 package main
 
 import (
-	"time"
 	"bytes"
 	"encoding/json"
 	"fmt"
@@ -17,6 +16,7 @@ import (
 	"sort"
 	"strings"
 	"sync"
+	"time"
 )
 
 type capturedReq struct {
@@ -35,38 +35,39 @@ type lfsLock struct {
 }
 
 type lfsServer struct {
-	mu       sync.Mutex
-	objs     map[string][]byte
-	reqs     []capturedReq
-	srv      *httptest.Server
-	putFail  map[string]int // oid -> status for PUT (e.g. 422, 500)
-	putLose  map[string]bool // oid -> the PUT is acknowledged with 200 but the data is not stored (a faulty object store)
-	noVerify bool
-	locks    []lfsLock
-	nextLock int
-	user     string // who the requests are from (set by the harness before each command)
-	lockMode string // ok | 404 | 501 | 500 | 403
-	unlockMode string // "" / ok, or the status with which the NEXT unlock request is refused (one shot; the lock stays)
+	mu               sync.Mutex
+	objs             map[string][]byte
+	reqs             []capturedReq
+	srv              *httptest.Server
+	putFail          map[string]int  // oid -> status for PUT (e.g. 422, 500)
+	putLose          map[string]bool // oid -> the PUT is acknowledged with 200 but the data is not stored (a faulty object store)
+	noVerify         bool
+	locks            []lfsLock
+	nextLock         int
+	user             string // who the requests are from (set by the harness before each command)
+	lockMode         string // ok | 404 | 501 | 500 | 403
+	unlockMode       string // "" / ok, or the status with which the NEXT unlock request is refused (one shot; the lock stays)
 	lastUploadAction map[string]string
-	pageSize int    // > 0: lock lists and lock verification are paginated (next_cursor = offset of the next page)
-	hashAlgo string // != "": `hash_algo` of every batch response (from the hashAlgoFrom-th one on)
-	hashAlgoFrom int    // the first hashAlgoFrom batch responses do not carry it
-	batchAnswers int
-	taintedAt    map[string]int // oid -> index into reqs at which a batch response naming hashAlgo offered it
-	mutate   func(kind string, v map[string]interface{}) // corrupt a response just before it is sent (C18)
-	cursorsHanded map[string]bool
-	pickAdvertised bool // answer with the first transfer adapter the client advertises that is not a built-in one
-	slowGet    func(w http.ResponseWriter, r *http.Request, b []byte) // serves a storage GET outside the server lock (C02 concurrency)
-	hdrStyle   int  // how the server spells the header NAMES of the actions it offers: 0 canonical, 1 lower, 2 upper, 3 mixed
-	offerExtra bool // offered actions also carry Authorization (and, for uploads, Content-Type)
-	lapseUploads bool              // the FIRST upload action offered for an object has already expired (a cached pre-signed URL): the client has to ask again
-	lapsedOnce   map[string]bool
-	transferPlan []string          // C18: `transfer` of the i-th answer to an UPLOAD batch ("tus" only when the client advertised it; "" = member left out = basic; the last entry repeats)
-	uploadAnswers int
-	answerLog    []string          // `transfer` of the answers to upload batches since the harness last cleared it ("-" = member left out)
-	offeredHist  map[string]string // oid -> answerLog, comma-joined, up to and including the answer that offered its upload action
-	availTus     bool
-	offeredAs    map[string]string // oid -> the transfer the latest batch response offering its upload action named
+	pageSize         int    // > 0: lock lists and lock verification are paginated (next_cursor = offset of the next page)
+	hashAlgo         string // != "": `hash_algo` of every batch response (from the hashAlgoFrom-th one on)
+	hashAlgoFrom     int    // the first hashAlgoFrom batch responses do not carry it
+	batchAnswers     int
+	taintedAt        map[string]int                              // oid -> index into reqs at which a batch response naming hashAlgo offered it
+	mutate           func(kind string, v map[string]interface{}) // corrupt a response just before it is sent (C18)
+	cursorsHanded    map[string]bool
+	pickAdvertised   bool                                                   // answer with the first transfer adapter the client advertises that is not a built-in one
+	slowGet          func(w http.ResponseWriter, r *http.Request, b []byte) // serves a storage GET outside the server lock (C02 concurrency)
+	hdrStyle         int                                                    // how the server spells the header NAMES of the actions it offers: 0 canonical, 1 lower, 2 upper, 3 mixed
+	offerExtra       bool                                                   // offered actions also carry Authorization (and, for uploads, Content-Type)
+	lapseUploads     bool                                                   // the FIRST upload action offered for an object has already expired (a cached pre-signed URL): the client has to ask again
+	lapsedOnce       map[string]bool
+	transferPlan     []string // C18: `transfer` of the i-th answer to an UPLOAD batch ("tus" only when the client advertised it; "" = member left out = basic; the last entry repeats)
+	uploadAnswers    int
+	answerLog        []string          // `transfer` of the answers to upload batches since the harness last cleared it ("-" = member left out)
+	offeredHist      map[string]string // oid -> answerLog, comma-joined, up to and including the answer that offered its upload action
+	availTus         bool
+	failOnce         map[string]int    // oid -> status with which the storage refuses the FIRST request for the object (401/403: the offered token is not valid yet, or no longer)
+	offeredAs        map[string]string // oid -> the transfer the latest batch response offering its upload action named
 }
 
 // actHeader is the header set of an offered action. HTTP header names are case-insensitive, so the
@@ -334,6 +335,14 @@ func (s *lfsServer) handle(w http.ResponseWriter, r *http.Request) {
 			s.capture(r, body, "storage-put")
 			s.reqs[len(s.reqs)-1].Header["~offered-as"] = s.offeredAs[oid]
 			s.noteHist(oid)
+			if st, ok := s.failOnce[oid]; ok {
+				delete(s.failOnce, oid)
+				if st == 401 {
+					w.Header().Set("WWW-Authenticate", "Basic realm=\"storage\"")
+				}
+				w.WriteHeader(st)
+				return
+			}
 			if st, ok := s.putFail[oid]; ok {
 				w.WriteHeader(st)
 				return
@@ -352,6 +361,14 @@ func (s *lfsServer) handle(w http.ResponseWriter, r *http.Request) {
 			return
 		}
 		s.capture(r, nil, "storage-get")
+		if st, ok := s.failOnce[oid]; ok {
+			delete(s.failOnce, oid)
+			if st == 401 {
+				w.Header().Set("WWW-Authenticate", "Basic realm=\"storage\"")
+			}
+			w.WriteHeader(st)
+			return
+		}
 		if b, ok := s.objs[oid]; ok && s.slowGet != nil {
 			hook := s.slowGet
 			s.mu.Unlock()
